@@ -13,12 +13,14 @@ package stree
 //
 //@ ghost field node.keys set[int]
 //@ ghost field node.desc set[ref]
+//@ ghost field node.cnt int
 //@ ghost field Tree.elems set[int]
 //@ role (*Tree).compare ord
 //@
 //@ spec inK(n *node[T], k int) bool := n != nil && k in n.keys
 //@ spec inD(n *node[T], y ref) bool := n != nil && y in n.desc
-//@ pred local(x *node[T], cmp func(T, T) int) := x in x.desc && rank(cmp, x.X) in x.keys
+//@ spec cntOf(n *node[T]) int := ite(n == nil, 0, n.cnt)
+//@ pred local(x *node[T], cmp func(T, T) int) := x in x.desc && rank(cmp, x.X) in x.keys && x.cnt == 1 + cntOf(x.left) + cntOf(x.right) && x.cnt >= 1
 //@+     && (x.left != nil ==> allocated(x.left) && x.left in x.desc) && (x.right != nil ==> allocated(x.right) && x.right in x.desc)
 //@+     && (forall y ref :: {y in x.desc} y in x.desc <==> (y == x || inD(x.left, y) || inD(x.right, y)))
 //@+     && (forall k int :: {k in x.keys} k in x.keys <==> (k == rank(cmp, x.X) || inK(x.left, k) || inK(x.right, k)))
@@ -31,7 +33,7 @@ package stree
 //@+     && (forall y *node[T] :: {y in n.desc} y in n.desc ==> y != nil && allocated(y) && local(y, cmp) && closed(y))
 //@ pred treeInv(t *Tree[T]) := t != nil && treeOK(t.root, t.compare)
 //@+     && (forall k int :: {k in t.elems} k in t.elems <==> inK(t.root, k))
-//@ pred sizeInv(t *Tree[T]) := t.size == card(t.elems) && t.size <= t.max
+//@ pred sizeInv(t *Tree[T]) := t.size == card(t.elems) && t.size <= t.max && t.size == cntOf(t.root)
 //@
 //@ func (*Tree).Len
 //@   pure
@@ -81,20 +83,25 @@ package stree
 //@ role (*Tree).limit pure
 //@
 //@ func (*node).size
-//@   ensures n == nil ==> result == 0
+//@   ghost cmp func(T, T) int
+//@   requires treeOK(n, cmp)
+//@   ensures result == cntOf(n)
+//@   call size#1: cmp = cmp
+//@   call size#2: cmp = cmp
 //@
-//@ spec sameNode(y *node[T]) bool := y.left == old(y.left) && y.right == old(y.right) && y.X == old(y.X) && y.keys == old(y.keys) && y.desc == old(y.desc)
+//@ spec sameNode(y *node[T]) bool := y.left == old(y.left) && y.right == old(y.right) && y.X == old(y.X) && y.keys == old(y.keys) && y.desc == old(y.desc) && y.cnt == old(y.cnt)
 //@
 // rewrite (treeToVine + vineToTree) rebuilds a subtree in place: same nodes, same keys, again a search tree. Its
 // contract is assumed here and checked by a bounded stand-in (the rotations need an in-order sequence argument).
 //@ func rewrite
 //@   ghost cmp func(T, T) int
 //@   requires treeOK(root, cmp)
-//@   ensures [assumed] shape: (root == nil <==> result == nil) && treeOK(result, cmp)
+//@   requires count: size == cntOf(root)
+//@   ensures [assumed] shape: (root == nil <==> result == nil) && treeOK(result, cmp) && cntOf(result) == old(cntOf(root))
 //@   ensures [assumed] keys: forall k int :: {inK(result, k)} inK(result, k) <==> old(inK(root, k))
 //@   ensures [assumed] desc: forall y ref :: {inD(result, y)} inD(result, y) <==> old(inD(root, y))
 //@   ensures [assumed] frame: forall y *node[T] :: {y.left} {y.right} {y.X} {y.keys} {y.desc} old(allocated(y)) && !old(inD(root, y)) ==> sameNode(y)
-//@   modifies every(root.left), every(root.right), every(root.keys), every(root.desc)
+//@   modifies every(root.left), every(root.right), every(root.keys), every(root.desc), every(root.cnt)
 //@
 //@ func (*Tree).insert
 //@   ghostret nw *node[T]
@@ -104,40 +111,57 @@ package stree
 //@   ensures  [C01] added: result.1 == !old(inK(root, rank(t.compare, key)))
 //@   ensures  [C01] desc: forall y ref :: {y in result.0.desc} y in result.0.desc <==> (old(inD(root, y)) || (nw != nil && y == nw))
 //@   ensures  [C01] new: (result.1 <==> nw != nil) && (nw != nil ==> fresh(nw))
+//@   ensures  [C01] count: cntOf(result.0) == old(cntOf(root)) + ite(result.1, 1, 0) && (result.2 > 0 ==> result.2 == cntOf(result.0))
 //@   ensures  [C01] frame: forall y *node[T] :: {y.left} {y.right} {y.X} {y.keys} {y.desc} old(allocated(y)) && !old(inD(root, y)) ==> sameNode(y)
-//@   modifies every(root.left), every(root.right), every(root.X), every(root.keys), every(root.desc)
+//@   modifies every(root.left), every(root.right), every(root.X), every(root.keys), every(root.desc), every(root.cnt)
 //@   at entry: ghost nw = nil
 //@   at return 1: ghost nw = result.0
 //@   at return 1: ghost result.0.keys = setadd(emptyset(result.0.keys), rank(t.compare, key))
 //@   at return 1: ghost result.0.desc = setadd(emptyset(result.0.desc), result.0)
+//@   at return 1: ghost result.0.cnt = 1
 //@   at after "root.left = ins": ghost nw = insert_nw
 //@   at after "root.left = ins": assert [C01] !(root in ins.desc) && !old(inD(root.left, root))
 //@   at after "root.left = ins": assert [C01] forall y *node[T] :: {y in ins.desc} y in ins.desc ==> y != root && y.left != root && y.right != root
 //@   at after "root.left = ins": assert [C01] forall y *node[T] :: {y in root.right.desc} inD(root.right, y) ==> sameNode(y) && !(y in ins.desc) && y != root && y.left != root && y.right != root
 //@   at after "root.left = ins": ghost root.keys = setadd(root.keys, rank(t.compare, key))
 //@   at after "root.left = ins": ghost root.desc = ite(nw != nil, setadd(root.desc, nw), root.desc)
+//@   at after "root.left = ins": ghost root.cnt = root.cnt + ite(nw != nil, 1, 0)
 //@   at after "root.right = ins": ghost nw = insert_nw
 //@   at after "root.right = ins": assert [C01] !(root in ins.desc) && !old(inD(root.right, root))
 //@   at after "root.right = ins": assert [C01] forall y *node[T] :: {y in ins.desc} y in ins.desc ==> y != root && y.left != root && y.right != root
 //@   at after "root.right = ins": assert [C01] forall y *node[T] :: {y in root.left.desc} inD(root.left, y) ==> sameNode(y) && !(y in ins.desc) && y != root && y.left != root && y.right != root
 //@   at after "root.right = ins": ghost root.keys = setadd(root.keys, rank(t.compare, key))
 //@   at after "root.right = ins": ghost root.desc = ite(nw != nil, setadd(root.desc, nw), root.desc)
+//@   at after "root.right = ins": ghost root.cnt = root.cnt + ite(nw != nil, 1, 0)
+//@   at after "root.left = ins": assert [C01] (forall w ref :: {w in ins.desc} w in ins.desc ==> w in root.desc) && (forall k int :: {k in ins.keys} k in ins.keys ==> k in root.keys)
+//@   at after "root.left = ins": assert [C01] (forall w ref :: {w in root.right.desc} inD(root.right, w) ==> w in root.desc) && (forall k int :: {k in root.right.keys} inK(root.right, k) ==> k in root.keys)
+//@   at after "root.left = ins": assert [C01] forall z *node[T] :: {z in ins.desc} z in ins.desc ==> local(z, t.compare) && closed(z)
+//@   at after "root.left = ins": assert [C01] forall z *node[T] :: {z in root.right.desc} inD(root.right, z) ==> local(z, t.compare) && closed(z)
+//@   at after "root.left = ins": assert [C01] local(root, t.compare)
+//@   at after "root.left = ins": assert [C01] closed(root)
 //@   at after "root.left = ins": assert [C01] treeOK(root, t.compare)
 //@   at after "root.left = ins": assert [C01] forall k int :: {k in root.keys} k in root.keys <==> (k == rank(t.compare, key) || old(inK(root, k)))
 //@   at after "root.left = ins": assert [C01] forall y ref :: {y in root.desc} y in root.desc <==> (old(inD(root, y)) || (nw != nil && y == nw))
 //@   at after "root.left = ins": assert [C01] forall y *node[T] :: {y.left} {y.right} {y.X} {y.keys} {y.desc} old(allocated(y)) && !old(inD(root, y)) ==> sameNode(y)
+//@   at after "root.right = ins": assert [C01] (forall w ref :: {w in ins.desc} w in ins.desc ==> w in root.desc) && (forall k int :: {k in ins.keys} k in ins.keys ==> k in root.keys)
+//@   at after "root.right = ins": assert [C01] (forall w ref :: {w in root.left.desc} inD(root.left, w) ==> w in root.desc) && (forall k int :: {k in root.left.keys} inK(root.left, k) ==> k in root.keys)
+//@   at after "root.right = ins": assert [C01] forall z *node[T] :: {z in ins.desc} z in ins.desc ==> local(z, t.compare) && closed(z)
+//@   at after "root.right = ins": assert [C01] forall z *node[T] :: {z in root.left.desc} inD(root.left, z) ==> local(z, t.compare) && closed(z)
+//@   at after "root.right = ins": assert [C01] local(root, t.compare)
+//@   at after "root.right = ins": assert [C01] closed(root)
 //@   at after "root.right = ins": assert [C01] treeOK(root, t.compare)
 //@   at after "root.right = ins": assert [C01] forall k int :: {k in root.keys} k in root.keys <==> (k == rank(t.compare, key) || old(inK(root, k)))
 //@   at after "root.right = ins": assert [C01] forall y ref :: {y in root.desc} y in root.desc <==> (old(inD(root, y)) || (nw != nil && y == nw))
 //@   at after "root.right = ins": assert [C01] forall y *node[T] :: {y.left} {y.right} {y.X} {y.keys} {y.desc} old(allocated(y)) && !old(inD(root, y)) ==> sameNode(y)
 //@   call rewrite#1: cmp = t.compare
+//@   call size#1: cmp = t.compare
 //@
 //@ func (*Tree).Add
 //@   requires [C01,C04] treeInv(t) && sizeInv(t)
 //@   ensures  [C01,C04] inv: treeInv(t) && sizeInv(t)
 //@   ensures  [C01,C04] set: forall k int :: {k in t.elems} k in t.elems <==> (k == rank(t.compare, key) || old(k in t.elems))
 //@   ensures  [C01,C04] result: result == !old(rank(t.compare, key) in t.elems)
-//@   modifies t.root, t.size, t.max, t.elems, every(t.root.left), every(t.root.right), every(t.root.X), every(t.root.keys), every(t.root.desc)
+//@   modifies t.root, t.size, t.max, t.elems, every(t.root.left), every(t.root.right), every(t.root.X), every(t.root.keys), every(t.root.desc), every(t.root.cnt)
 //@   at exit: ghost t.elems = setadd(t.elems, rank(t.compare, key))
 //@
 //@ func (*Tree).Replace
@@ -145,7 +169,7 @@ package stree
 //@   ensures  [C01,C04] inv: treeInv(t) && sizeInv(t)
 //@   ensures  [C01,C04] set: forall k int :: {k in t.elems} k in t.elems <==> (k == rank(t.compare, key) || old(k in t.elems))
 //@   ensures  [C01,C04] result: result == !old(rank(t.compare, key) in t.elems)
-//@   modifies t.root, t.size, t.max, t.elems, every(t.root.left), every(t.root.right), every(t.root.X), every(t.root.keys), every(t.root.desc)
+//@   modifies t.root, t.size, t.max, t.elems, every(t.root.left), every(t.root.right), every(t.root.X), every(t.root.keys), every(t.root.desc), every(t.root.cnt)
 //@   at exit: ghost t.elems = setadd(t.elems, rank(t.compare, key))
 //@
 // popMinRight detaches the leftmost node of root.right and returns it; the ghost fields of the nodes on the way down
@@ -157,9 +181,9 @@ package stree
 //@   ensures [assumed] least: old(rank(cmp, result.X) in root.right.keys) && forall k int :: {old(k in root.right.keys)} old(k in root.right.keys) ==> rank(cmp, result.X) <= k
 //@   ensures [assumed] rest: treeOK(root.right, cmp) && (forall k int :: {inK(root.right, k)} inK(root.right, k) <==> old(k in root.right.keys) && k != rank(cmp, result.X))
 //@+      && (forall y ref :: {inD(root.right, y)} inD(root.right, y) <==> old(y in root.right.desc) && y != result)
-//@   ensures [assumed] top: root.left == old(root.left) && root.X == old(root.X) && root.keys == old(root.keys) && root.desc == old(root.desc)
+//@   ensures [assumed] top: root.left == old(root.left) && root.X == old(root.X) && root.keys == old(root.keys) && root.desc == old(root.desc) && root.cnt == old(root.cnt) && cntOf(root.right) == old(cntOf(root.right)) - 1
 //@   ensures [assumed] frame: forall y *node[T] :: {y.left} {y.right} {y.X} {y.keys} {y.desc} old(allocated(y)) && !old(y in root.right.desc) && y != root ==> sameNode(y)
-//@   modifies every(root.left), every(root.right), every(root.keys), every(root.desc)
+//@   modifies every(root.left), every(root.right), every(root.keys), every(root.desc), every(root.cnt)
 //@
 //@ func (*node).remove
 //@   role compare ord
@@ -169,9 +193,10 @@ package stree
 //@   ensures  [C01] keys: forall k int :: {inK(result.0, k)} inK(result.0, k) <==> old(inK(n, k)) && k != rank(compare, key)
 //@   ensures  [C01] found: result.1 == old(inK(n, rank(compare, key)))
 //@   ensures  [C01] desc: forall y ref :: {inD(result.0, y)} inD(result.0, y) <==> old(inD(n, y)) && y != gone
+//@   ensures  [C01] count: cntOf(result.0) == old(cntOf(n)) - ite(result.1, 1, 0)
 //@   ensures  [C01] gone: (result.1 <==> gone != nil) && (gone != nil ==> n != nil && gone in old(n.desc))
 //@   ensures  [C01] frame: forall y *node[T] :: {y.left} {y.right} {y.X} {y.keys} {y.desc} old(allocated(y)) && !old(inD(n, y)) ==> sameNode(y)
-//@   modifies every(n.left), every(n.right), every(n.X), every(n.keys), every(n.desc)
+//@   modifies every(n.left), every(n.right), every(n.X), every(n.keys), every(n.desc), every(n.cnt)
 //@   at entry: ghost gone = nil
 //@   at after "n.left, ok = n.left.remove(key, compare)": ghost gone = remove_gone
 //@   at after "n.left, ok = n.left.remove(key, compare)": assert [C01] !(inD(n.left, n)) && !old(inD(n.left, n))
@@ -179,6 +204,7 @@ package stree
 //@   at after "n.left, ok = n.left.remove(key, compare)": assert [C01] forall y *node[T] :: {y in n.right.desc} inD(n.right, y) ==> sameNode(y) && !inD(n.left, y) && y != n && y.left != n && y.right != n && y != gone
 //@   at after "n.left, ok = n.left.remove(key, compare)": ghost n.keys = setdel(n.keys, rank(compare, key))
 //@   at after "n.left, ok = n.left.remove(key, compare)": ghost n.desc = ite(gone != nil, setdel(n.desc, gone), n.desc)
+//@   at after "n.left, ok = n.left.remove(key, compare)": ghost n.cnt = n.cnt - ite(gone != nil, 1, 0)
 //@   at after "n.left, ok = n.left.remove(key, compare)": assert [C01] treeOK(n, compare)
 //@   at after "n.left, ok = n.left.remove(key, compare)": assert [C01] forall k int :: {k in n.keys} k in n.keys <==> old(inK(n, k)) && k != rank(compare, key)
 //@   at after "n.left, ok = n.left.remove(key, compare)": assert [C01] forall y ref :: {y in n.desc} y in n.desc <==> old(inD(n, y)) && y != gone
@@ -188,6 +214,7 @@ package stree
 //@   at after "n.right, ok = n.right.remove(key, compare)": assert [C01] forall y *node[T] :: {y in n.left.desc} inD(n.left, y) ==> sameNode(y) && !inD(n.right, y) && y != n && y.left != n && y.right != n && y != gone
 //@   at after "n.right, ok = n.right.remove(key, compare)": ghost n.keys = setdel(n.keys, rank(compare, key))
 //@   at after "n.right, ok = n.right.remove(key, compare)": ghost n.desc = ite(gone != nil, setdel(n.desc, gone), n.desc)
+//@   at after "n.right, ok = n.right.remove(key, compare)": ghost n.cnt = n.cnt - ite(gone != nil, 1, 0)
 //@   at after "n.right, ok = n.right.remove(key, compare)": assert [C01] treeOK(n, compare)
 //@   at after "n.right, ok = n.right.remove(key, compare)": assert [C01] forall k int :: {k in n.keys} k in n.keys <==> old(inK(n, k)) && k != rank(compare, key)
 //@   at after "n.right, ok = n.right.remove(key, compare)": assert [C01] forall y ref :: {y in n.desc} y in n.desc <==> old(inD(n, y)) && y != gone
@@ -196,6 +223,7 @@ package stree
 //@   at after "goat := popMinRight(n)": ghost gone = goat
 //@   at after "n.X = goat.X": ghost n.keys = setdel(n.keys, rank(compare, key))
 //@   at after "n.X = goat.X": ghost n.desc = setdel(n.desc, goat)
+//@   at after "n.X = goat.X": ghost n.cnt = n.cnt - 1
 //@   call popMinRight#1: cmp = compare
 //@
 //@ func (*Tree).Remove
@@ -203,6 +231,6 @@ package stree
 //@   ensures  [C01,C04] inv: treeInv(t) && sizeInv(t)
 //@   ensures  [C01,C04] set: forall k int :: {k in t.elems} k in t.elems <==> old(k in t.elems) && k != rank(t.compare, key)
 //@   ensures  [C01,C04] result: result == old(rank(t.compare, key) in t.elems)
-//@   modifies t.root, t.size, t.max, t.elems, every(t.root.left), every(t.root.right), every(t.root.X), every(t.root.keys), every(t.root.desc)
+//@   modifies t.root, t.size, t.max, t.elems, every(t.root.left), every(t.root.right), every(t.root.X), every(t.root.keys), every(t.root.desc), every(t.root.cnt)
 //@   at exit: ghost t.elems = setdel(t.elems, rank(t.compare, key))
 //@   call rewrite#1: cmp = t.compare
